@@ -69,10 +69,10 @@ func (h *c24Half) read(p []byte) (int, error) {
 	}
 	// the transport may deliver any non-empty piece of what is buffered
 	n := len(h.buf) - h.off
-	switch h.rng.Intn(4) {
+	switch h.rng.Intn(8) {
 	case 0:
 		n = 1
-	case 1:
+	case 1, 4:
 		if n > 1 {
 			n = 1 + h.rng.Intn(n)
 		}
@@ -211,14 +211,14 @@ func c24GenScript(rng *rand.Rand, big int) *c24Script {
 		nw = 2 + rng.Intn(12)
 	}
 	tiny := nw >= 40
-	for i := 0; i < nw && s.total < 300<<10; i++ {
+	for i := 0; i < nw && s.total < 200<<10; i++ {
 		var n int
 		switch {
 		case tiny:
 			n = rng.Intn(3)
 		case rng.Intn(3) == 0:
 			n = c24EdgeSizes[rng.Intn(len(c24EdgeSizes))]
-		case rng.Intn(3) == 0:
+		case rng.Intn(5) == 0:
 			n = rng.Intn(140000)
 		default:
 			n = rng.Intn(3000)
